@@ -10,10 +10,12 @@ import (
 	"math/big"
 	"sort"
 	"strings"
+	"testing"
 
 	sdk "github.com/cosmos/cosmos-sdk/types"
 	authtypes "github.com/cosmos/cosmos-sdk/x/auth/types"
 	banktypes "github.com/cosmos/cosmos-sdk/x/bank/types"
+	distrtypes "github.com/cosmos/cosmos-sdk/x/distribution/types"
 	"github.com/cosmos/cosmos-sdk/x/params"
 	proposaltypes "github.com/cosmos/cosmos-sdk/x/params/types/proposal"
 	tmproto "github.com/tendermint/tendermint/proto/tendermint/types"
@@ -21,6 +23,7 @@ import (
 	"github.com/teleport-network/teleport/app"
 	rvesting "github.com/teleport-network/teleport/x/rvesting/module"
 	rvtypes "github.com/teleport-network/teleport/x/rvesting/types"
+	xibctesting "github.com/teleport-network/teleport/x/xibc/testing"
 
 	"verifharness/hlib"
 )
@@ -35,6 +38,7 @@ type Change struct {
 
 type Spec struct {
 	ID    int      `json:"id"`
+	Full  bool     `json:"full,omitempty"` // run through real blocks (app.BeginBlock on a TestChain) instead of calling BeginBlocker directly
 	Pool  []Pair   `json:"pool"`
 	Fee   []Pair   `json:"fee"`
 	Other []Pair   `json:"other"`
@@ -177,17 +181,25 @@ type snapshot struct {
 	rest      string
 }
 
-func snap(ctx sdk.Context, a *app.Teleport) snapshot {
+// snap reads every balance and the supply.  withDistr: the distribution module account is counted together
+// with the fee collector (in a real block the distribution BeginBlocker, which runs after rvesting, sweeps the
+// fee collector into it).
+func snap(ctx sdk.Context, a *app.Teleport, withDistr bool) snapshot {
 	poolAddr := a.AccountKeeper.GetModuleAddress(rvtypes.ModuleName)
 	feeAddr := a.AccountKeeper.GetModuleAddress(authtypes.FeeCollectorName)
+	distrAddr := a.AccountKeeper.GetModuleAddress(distrtypes.ModuleName)
 	s := snapshot{pool: map[string]string{}, fee: map[string]string{}}
 	var rest []string
 	a.BankKeeper.IterateAllBalances(ctx, func(addr sdk.AccAddress, c sdk.Coin) bool {
 		switch {
 		case addr.Equals(poolAddr):
 			s.pool[c.Denom] = c.Amount.String()
-		case addr.Equals(feeAddr):
-			s.fee[c.Denom] = c.Amount.String()
+		case addr.Equals(feeAddr), withDistr && addr.Equals(distrAddr):
+			prev, ok := sdk.NewIntFromString(s.fee[c.Denom])
+			if !ok {
+				prev = sdk.ZeroInt()
+			}
+			s.fee[c.Denom] = prev.Add(c.Amount).String()
 		default:
 			rest = append(rest, addr.String()+"/"+c.String())
 		}
@@ -216,6 +228,14 @@ func project(m map[string]string, denoms []string) []Pair {
 
 func runSpec(a *app.Teleport, base sdk.Context, s Spec) Result {
 	ctx, _ := base.CacheContext()
+	var coord *xibctesting.Coordinator
+	var chain *xibctesting.TestChain
+	if s.Full {
+		coord = xibctesting.NewCoordinator(&testing.T{}, 1)
+		chain = coord.GetChain(xibctesting.GetChainID(0))
+		a = chain.App
+		ctx = chain.GetContext()
+	}
 	res := Result{Spec: s}
 	// denominations observed: every valid denomination of the universe plus those in the spec that the bank accepts
 	dset := map[string]bool{}
@@ -287,9 +307,17 @@ func runSpec(a *app.Teleport, base sdk.Context, s Spec) Result {
 			}
 			o.EnableClass = change(string(rvtypes.KeyEnableVesting), v)
 		}
-		before := snap(ctx, a)
-		p, val := hlib.Catch(func() { rvesting.BeginBlocker(ctx, a.RVestingKeeper) })
-		after := snap(ctx, a)
+		before := snap(ctx, a, s.Full)
+		var p bool
+		var val string
+		if s.Full {
+			// end the current block and begin the next one: app.BeginBlock runs every module's BeginBlocker
+			p, val = hlib.Catch(func() { coord.CommitBlock(chain) })
+			ctx = chain.GetContext()
+		} else {
+			p, val = hlib.Catch(func() { rvesting.BeginBlocker(ctx, a.RVestingKeeper) })
+		}
+		after := snap(ctx, a, s.Full)
 		if p {
 			o.Class = 2
 			o.Panic = val
@@ -337,7 +365,9 @@ func main() {
 	} else {
 		root := hlib.NewRand(*seed)
 		for i := 0; i < *n; i++ {
-			specs = append(specs, genSpec(root.Fork(uint64(i)), i, *steps))
+			sp := genSpec(root.Fork(uint64(i)), i, *steps)
+			sp.Full = i%10 == 9
+			specs = append(specs, sp)
 		}
 	}
 	w := hlib.NewOut(*out)
